@@ -373,4 +373,32 @@ func uniq(in []string) []string {
 }
 
 // checkFrame: obligations that nothing outside the assigns clauses changed.
-func (fr *Frame) checkFrame(c *Contract, scope map[string]*Val) {}
+func (fr *Frame) checkFrame(c *Contract, scope map[string]*Val) {
+	// ghost state: anything not named in assigns keeps its entry value
+	named := map[string]bool{}
+	heapAll := false
+	for _, a := range c.Assigns {
+		if a.Expr.Kind == "ident" {
+			named[a.Expr.Name] = true
+			if a.Expr.Name == "$heap" {
+				heapAll = true
+			}
+		}
+	}
+	_ = heapAll
+	name := shortFuncName(fr.fn.String())
+	for _, g := range []string{"$pos", "$reads", "$writes"} {
+		if named[g] {
+			continue
+		}
+		now, ok := fr.st.ghost[g]
+		if !ok {
+			continue
+		}
+		was, ok := fr.entry.ghost[g]
+		if !ok {
+			was = fr.vc.ghostInit(g)
+		}
+		fr.vc.obligeNamed(fr, fmt.Sprintf("%s/frame/%s", name, g), "frame", eq(now, was), nil, g+" is not in the assigns clause and must be unchanged")
+	}
+}
